@@ -2,6 +2,8 @@ import HappyProofs.C07.NoPast
 import HappyProofs.C07.Rearm
 import HappyProofs.C07.Ranked
 import HappyProofs.C07.Timers
+import HappyProofs.C07.TimerHandlers
+import HappyProofs.C07.FloatStamp
 /-!
 # C07 — property theorems
 
